@@ -48,6 +48,9 @@ type Ctx struct {
 	// Importing: the rule sets being evaluated on behalf of this context's property (importObligations); a rule
 	// set that imports from one that imports from it is evaluated without that inner import
 	Importing map[uintptr]bool
+	// SkippedImport: an import inside this evaluation was left out because of a mutual import (the result then
+	// depends on who asked and is not cached)
+	SkippedImport bool
 }
 
 func NewCtx(p *Prog, property string) *Ctx {
